@@ -29,6 +29,7 @@ fn tid() -> String {
 static RECORD: AtomicBool = AtomicBool::new(true);
 static PANICS: AtomicUsize = AtomicUsize::new(0);
 static WRONG: AtomicUsize = AtomicUsize::new(0);
+static SYNC_TIMEOUTS: AtomicUsize = AtomicUsize::new(0);
 
 fn emit(mut e: J) {
     if !RECORD.load(Ordering::Relaxed) {
@@ -190,8 +191,13 @@ fn handler_entry(id: &str) {
         if h == id {
             flag.store(true, Ordering::SeqCst);
             let t0 = std::time::Instant::now();
-            while !done.load(Ordering::SeqCst) && t0.elapsed().as_secs() < 10 {
+            while !done.load(Ordering::SeqCst) && t0.elapsed().as_secs() < 6 {
                 std::thread::yield_now();
+            }
+            if !done.load(Ordering::SeqCst) {
+                // the other thread's engine calls did not complete while this handler was running: had the handler waited for
+                // them without a time limit, both threads would be stuck (the harness gives up so that the run can be reported)
+                SYNC_TIMEOUTS.fetch_add(1, Ordering::SeqCst);
             }
         }
     }
@@ -406,7 +412,8 @@ pub fn run(args: &[String]) {
         out.line(e);
     }
     let parked: Vec<(String, String)> = g.waiting.lock().unwrap().iter().map(|(a, b)| (a.clone(), b.clone())).collect();
-    out.line(&json!({"summary": {"events": evs.len(), "deadlock": deadlock, "parked": parked, "panics": PANICS.load(Ordering::SeqCst), "impossible_results": WRONG.load(Ordering::SeqCst)}}));
+    out.line(&json!({"summary": {"events": evs.len(), "deadlock": deadlock, "parked": parked, "panics": PANICS.load(Ordering::SeqCst), "impossible_results": WRONG.load(Ordering::SeqCst),
+                                 "sync_timeouts": SYNC_TIMEOUTS.load(Ordering::SeqCst)}}));
     out.flush();
     if deadlock {
         std::process::exit(0);
